@@ -557,6 +557,12 @@ SETTINGS_MAX_FRAME_SIZE is inside the range RFC 9113 section 6.5.2 allows (the c
 validate it: a value of 0 makes `writeHeaders` loop forever — C07's subject), and a
 WINDOW_UPDATE increment is a 31-bit number (the frame parser masks the reserved bit). -/
 
+/-- a caller fingerprint that advertises legal values: SETTINGS_INITIAL_WINDOW_SIZE and the
+connection window (65535 + the initial WINDOW_UPDATE) do not exceed 2^31-1 -/
+def Cfg.ok (cfg : Cfg) : Prop :=
+  (∀ v, lastSetting cfg.settings sInitialWindowSize = some v → v ≤ 2147483647) ∧
+  connFlowAdvertised cfg.connFlow + 65535 ≤ 2147483647
+
 def PFrame.ok : PFrame → Prop
   | .settings vals => ∀ p ∈ vals, p.1 = sMaxFrameSize → 16384 ≤ p.2
   | .windowUpdate _ inc => inc ≤ 2147483647
